@@ -104,7 +104,7 @@ impl CanonicalRequest {
         }, //# C12 C13 name=undecodable_or_malformed_form_body_is_refused
         r is Err ==> (r->Err_0 is InvalidURIPath || r->Err_0 is MalformedQueryString || r->Err_0 is InvalidBodyEncoding), //# C13 name=stage_error_kinds
         d6_ok(parts) && frp_accepts(parts, body, options) ==> r is Ok, //# C02 C12 name=well_formed_request_is_accepted_by_canonicalisation
-        d6_ok(parts) && r is Err && canon_path(parts.uri.path, options.s3) is Some ==> !(r->Err_0 is InvalidURIPath), //# C13 name=path_error_only_for_a_bad_path
+        d6_ok(parts) && r is Err && canon_path(parts.uri.path, options.s3) is Some && parse_query(url_query(parts)) is Some ==> fold_verdict(parts, body, r->Err_0), //# C13 C12 name=form_body_rules_in_order
         d6_ok(parts) && r is Ok ==> frp_ok(parts, body, options, r->Ok_0.0, r->Ok_0.1, r->Ok_0.2), //# C01 C09 C10 C11 C12 C15 C19 name=canonical_request_is_that_of_the_request_as_received_and_request_passes_through
 //@ bodystart
     let ghost parts0 = parts;
@@ -336,11 +336,15 @@ pub open spec fn refusal_follows_precedence<G>(parts: Parts, body: Bytes, option
 {
     ||| (canon_path(parts.uri.path, options.s3) is None && e is InvalidURIPath)
     ||| (canon_path(parts.uri.path, options.s3) is Some && parse_query(url_query(parts)) is None && e is MalformedQueryString)
-    ||| (canon_path(parts.uri.path, options.s3) is Some && parse_query(url_query(parts)) is Some && !frp_accepts(parts, body, options)
-            && (e is InvalidBodyEncoding || e is MalformedQueryString))
+    ||| (canon_path(parts.uri.path, options.s3) is Some && parse_query(url_query(parts)) is Some && !frp_accepts(parts, body, options) && fold_verdict(parts, body, e))
     ||| exists|cr: CanonicalRequest, parts2: Parts, body2: Bytes| #[trigger] refused_by_rules_5_to_9(parts, body, options, always, ifreq, prefixes, cr, parts2, body2, e)
     ||| exists|cr: CanonicalRequest, parts2: Parts, body2: Bytes, a: SigV4Authenticator, d: Duration|
             #[trigger] refused_after_rule_9::<G>(parts, body, options, always, ifreq, prefixes, region, service, now, g0, cr, parts2, body2, a, d, e)
+}
+/// the form-body rules in their order: unknown charset, undecodable body (both InvalidBodyEncoding), then a body that is not a query string or a
+/// rebuilt URI http does not accept (MalformedQueryString)
+pub open spec fn fold_verdict(parts: Parts, body: Bytes, e: SignatureError) -> bool {
+    if body_encoding(parts) is None || spec_decode(body_encoding(parts)->Some_0, body.data) is None { e is InvalidBodyEncoding } else { e is MalformedQueryString }
 }
 pub open spec fn refused_by_rules_5_to_9(parts: Parts, body: Bytes, options: SignatureOptions, always: Seq<Seq<u8>>, ifreq: Seq<Seq<u8>>, prefixes: Seq<Seq<u8>>,
     cr: CanonicalRequest, parts2: Parts, body2: Bytes, e: SignatureError) -> bool
